@@ -247,6 +247,9 @@ func visitInstr(fr *frame, instr ssa.Instruction) continuation {
 	case *ssa.Panic:
 		panic(targetPanic{v: fr.get(instr.X)})
 	case *ssa.Send:
+		if in.inGoroutine > 0 {
+			panic(unsupported{"channel send inside a goroutine started by the code under test"})
+		}
 		ch := fr.get(instr.Chan).(*Chan)
 		if ch == nil {
 			panic(unsupported{"send on nil channel (blocks forever)"})
@@ -286,7 +289,15 @@ func visitInstr(fr *frame, instr ssa.Instruction) continuation {
 		}
 		*defers = &deferred{fn: fn, args: args, instr: instr, tail: *defers}
 	case *ssa.Go:
-		panic(unsupported{"go statement"})
+		// One legal schedule of a goroutine that never blocks: it runs to completion at once.
+		// (A goroutine that would block - a send without a receiver, a receive - is unsupported
+		// below.) Other schedules are outside the claim; natively the replay is repeated.
+		fn, args := prepareCall(fr, &instr.Call)
+		in.path.goN++
+		in.path.labels["schedule"] = "a goroutine was run to completion where it was started"
+		in.inGoroutine++
+		in.call(fr, instr.Pos(), fn, args)
+		in.inGoroutine--
 	case *ssa.Select:
 		// Non-blocking select whose cases are all sends on unbuffered channels: a case is taken
 		// iff a receiver happens to be waiting at that moment, which depends on the schedule -
